@@ -28,7 +28,7 @@ static Str norm_input(Ctx& c, uint64_t idx, const char** gen) {
     }
 }
 
-template <class X> Str text_of(Ctx& c, UriBox<X>& b) { Str t; if (b.str(&t) != URI_SUCCESS) { c.count("tostring_failed"); return "<tostring failed>"; } return t; }
+template <class X> Str text_of(Ctx&, UriBox<X>& b) { return b.text_of_fields(); }
 
 template <class X> void norm_run(Ctx& c, const Str& s, const char* gen, uint64_t idx) {
     size_t e; if (!dfa_uriref(s, &e)) { c.count("skipped_invalid"); return; }
@@ -43,6 +43,7 @@ template <class X> void norm_run(Ctx& c, const Str& s, const char* gen, uint64_t
         for (int owned = 0; owned < 2; owned++) {
             UriBox<X> b; Ledger* l = (mask & 1) ^ (unsigned)owned ? &led : nullptr;
             if (b.parse(s, l) != URI_SUCCESS) { c.count("parse_failed"); return; }
+            if (!b.faithful()) { c.count("skipped_unfaithful_parse"); return; }
             if (owned && b.make_owner() != URI_SUCCESS) { c.count("makeowner_failed"); continue; }
             c.stage(mask * 2 + (unsigned)owned + 1);
             int rc = b.normalize(mask);
@@ -120,6 +121,7 @@ template <class X> void nr_run(Ctx& c, const Str& Rs, const Str& Bs, const char*
     Str what = fmt("ref=\"%s\" base=\"%s\"", esc(Rs).c_str(), esc(Bs).c_str());
     // second sentence: normalisation keeps scheme / authority presence and the kind of a plain path reference
     UriBox<X> Rn; if (Rn.parse(Rs) != URI_SUCCESS) return;
+    if (!Rn.faithful()) { c.count("skipped_unfaithful_parse"); return; }
     if (c.rng.coin()) Rn.make_owner();
     if (Rn.normalize(63) != URI_SUCCESS) { c.count("normalize_failed"); return; }
     c.evaluations++;
@@ -144,6 +146,7 @@ template <class X> void nr_run(Ctx& c, const Str& Rs, const Str& Bs, const char*
     if (!mb.hasScheme) return;
     // first sentence: normalize(resolve(normalize(R),B)) == normalize(resolve(R,B))
     UriBox<X> B, R; if (B.parse(Bs) != URI_SUCCESS || R.parse(Rs) != URI_SUCCESS) return;
+    if (!B.faithful()) { c.count("skipped_unfaithful_parse"); return; }
     UriBox<X> T1, T2; int r1, r2;
     { LibScope ls; r1 = X::AddBaseUri(&T1.u, &Rn.u, &B.u); } T1.live = r1 == URI_SUCCESS;
     { LibScope ls; r2 = X::AddBaseUri(&T2.u, &R.u, &B.u); } T2.live = r2 == URI_SUCCESS;
